@@ -31,6 +31,10 @@ import (
 
 type TLSCase struct {
 	MaxRetransmits int `json:"max_retransmits"`
+	// Responsive: the peer answers every watchdog request with success, and the connection is
+	// watched for three times the dial timeout (300 ms): "while each request is answered ... the
+	// client never closes the connection" - whatever the dial set up to bound itself.
+	Responsive bool `json:"responsive,omitempty"`
 }
 
 var tlsUnavailable int64
@@ -100,6 +104,11 @@ func runTLSHung(c TLSCase) *ev.Failure {
 				pc.Write(ceaFor(h))
 			case h.Code == 280 && h.Flags&0x80 != 0:
 				r.dwrs++ // hung: no answer, no hang-up
+				if c.Responsive {
+					pc.Write(refcodec.EncodeMessage(refcodec.Header{Version: 1, Code: 280, HopByHop: h.HopByHop, EndToEnd: h.EndToEnd},
+						[]*refcodec.Node{{Code: 268, Flags: 0x40, Payload: refcodec.U32(2001)}, {Code: 264, Flags: 0x40, Payload: []byte("srv.example")},
+							{Code: 296, Flags: 0x40, Payload: []byte("example")}}, false))
+				}
 			}
 		}
 		// below TLS: has the TCP connection ended?
@@ -136,12 +145,30 @@ func runTLSHung(c TLSCase) *ev.Failure {
 	cli := &sm.Client{Handler: machine, MaxRetransmits: uint(c.MaxRetransmits), RetransmitInterval: 60 * time.Millisecond,
 		EnableWatchdog: true, WatchdogInterval: 40 * time.Millisecond,
 		AuthApplicationID: []*diam.AVP{diam.NewAVP(258, 0x40, 0, datatype.Unsigned32(4))}}
-	conn, err := cli.DialTLSExt("tcp", ln.Addr().String(), "", "", 2*time.Second, nil)
+	dialTimeout := 2 * time.Second
+	if c.Responsive {
+		dialTimeout = 300 * time.Millisecond
+	}
+	conn, err := cli.DialTLSExt("tcp", ln.Addr().String(), "", "", dialTimeout, nil)
+	if err != nil && c.Responsive {
+		return nil // a dial that does not make it in 300 ms on a busy machine: inconclusive
+	}
 	if err != nil {
 		// DialTLS verifies the peer's certificate against the system roots: use the insecure variant if there is one
 		return ev.Failf("harness-dial", "DialTLSExt: %v", err)
 	}
 	defer conn.Close()
+	if c.Responsive {
+		dialled := time.Now()
+		select {
+		case <-conn.(diam.CloseNotifier).CloseNotify():
+			return ev.Failf("tls:responsive-peer-closed", "a TLS connection made with DialTLSExt (dial timeout %v) to a peer that answers every watchdog request with success was closed %v after the dial", dialTimeout, time.Since(dialled))
+		case r := <-res:
+			return ev.Failf("tls:responsive-peer-closed", "a TLS connection made with DialTLSExt (dial timeout %v) to a peer that answers every watchdog request: the peer saw the connection end %v after the dial (%d watchdog requests, err %v)", dialTimeout, time.Since(dialled), r.dwrs, r.err)
+		case <-time.After(3 * dialTimeout):
+		}
+		return nil
+	}
 	select {
 	case r := <-res:
 		if r.err != nil {
@@ -161,9 +188,11 @@ func runTLSHung(c TLSCase) *ev.Failure {
 
 var tlsHungProp = ev.Register(&ev.Prop[TLSCase]{
 	ID: "C13", Name: "hung-tls-peer",
-	Rule:     "sm.Client.DialTLSExt over real TCP + TLS on 127.0.0.1 (WatchdogInterval 40 ms, RetransmitInterval 60 ms, MaxRetransmits 0..2) to a peer that answers the CER and then neither answers nor hangs up; demanded: exactly MaxRetransmits+1 transmissions of the DWR and then the end of the TCP connection as seen below TLS by the peer (within 3 s of the end of the TLS stream). Inconclusive where loopback listening is unavailable. Every case is non-trivial",
-	Run:      runTLSHung,
-	Classify: func(c TLSCase) (bool, []string) { return true, []string{fmt.Sprintf("budget:%d", c.MaxRetransmits+1)} },
+	Rule: "sm.Client.DialTLSExt over real TCP + TLS on 127.0.0.1 (WatchdogInterval 40 ms, RetransmitInterval 60 ms, MaxRetransmits 0..2) to a peer that answers the CER and then neither answers nor hangs up; demanded: exactly MaxRetransmits+1 transmissions of the DWR and then the end of the TCP connection as seen below TLS by the peer (within 3 s of the end of the TLS stream). A second kind of case: the peer answers every watchdog request, the dial timeout is 300 ms, and for 900 ms after the dial the connection must not end (CloseNotify silent, the peer's TLS stream alive). Inconclusive where loopback listening is unavailable. Every case is non-trivial",
+	Run:  runTLSHung,
+	Classify: func(c TLSCase) (bool, []string) {
+		return true, []string{fmt.Sprintf("budget:%d", c.MaxRetransmits+1), fmt.Sprintf("responsive-peer:%v", c.Responsive)}
+	},
 })
 
 func TestC13HungTLSPeer(t *testing.T) {
@@ -172,6 +201,11 @@ func TestC13HungTLSPeer(t *testing.T) {
 	tlsHungProp.Enumerate(t, true, func(yield func(TLSCase) bool) {
 		for m := 0; m <= 2; m++ {
 			if !yield(TLSCase{MaxRetransmits: m}) {
+				return
+			}
+		}
+		for m := 0; m <= 2; m += 2 {
+			if !yield(TLSCase{MaxRetransmits: m, Responsive: true}) {
 				return
 			}
 		}
